@@ -464,6 +464,11 @@ def _norm_block(stmts, fn_locals):
         if st is None:
             continue
         out.extend(st if isinstance(st, list) else [st])
+    # nothing runs after a statement that cannot fall through
+    for i, st in enumerate(out):
+        if _terminates([st]):
+            out = out[:i + 1]
+            break
     # else-flattening and one orientation for two-way exits
     guard = 0
     i = 0
@@ -486,26 +491,45 @@ def _norm_block(stmts, fn_locals):
                 continue
         i += 1
     out = _tail_merge(out)
-    out = _early_same_exit(out)
     out = _try_hoist(out)
     out = _result_var(out)
     out = _loops_to_builtins(out)
     out = _inline_temps(out, fn_locals)
+    out = _return_ifexp(out)
     return out
 
 
 def _tail_merge(stmts):
-    """if c: S ; T   followed by the same terminator T   ->   if c: S   followed by T"""
-    out = list(stmts)
-    for i in range(len(out) - 1):
-        s, nxt = out[i], out[i + 1]
-        if isinstance(s, ast.If) and not s.orelse and isinstance(nxt, (ast.Return, ast.Raise)) and s.body and isinstance(s.body[-1], type(nxt)) and _dump(s.body[-1]) == _dump(nxt):
-            body = s.body[:-1]
-            if body:
-                out[i] = ast.If(test=s.test, body=body, orelse=[])
+    """a block that ends in the terminator T:   if c: S ; T   Y... ; T      ->      if c: S else: Y...   ; T
+    (S or Y may be empty; applied from the first such `if` on, recursively for the rest)"""
+    if len(stmts) < 2 or not isinstance(stmts[-1], (ast.Return, ast.Raise)):
+        return stmts
+    T = stmts[-1]
+    for i, s in enumerate(stmts[:-1]):
+        if isinstance(s, ast.If) and not s.orelse and s.body and type(s.body[-1]) is type(T) and _dump(s.body[-1]) == _dump(T):
+            rest = _tail_merge(stmts[i + 1:])       # ends with T
+            body, orelse = s.body[:-1], rest[:-1]
+            if not body and not orelse:
+                new = [ast.Expr(value=s.test)] if not _simple_pure(s.test) else []
+            elif not body:
+                new = [ast.If(test=_neg_test(s.test), body=orelse, orelse=[])]
             else:
-                out[i] = ast.Expr(value=s.test) if not _simple_pure(s.test) else ast.Pass()
-    return [x for x in out if not isinstance(x, ast.Pass)] or ([ast.Pass()] if stmts else [])
+                new = [ast.If(test=s.test, body=body, orelse=orelse)]
+            return stmts[:i] + new + [T]
+    return stmts
+
+
+def _return_ifexp(stmts):
+    """return A if c else B   ->   if c: return A ; return B"""
+    out = []
+    for st in stmts:
+        if isinstance(st, ast.Return) and isinstance(st.value, ast.IfExp):
+            e = st.value
+            out.append(ast.If(test=e.test, body=_return_ifexp([ast.Return(value=e.body)]), orelse=[]))
+            out.extend(_return_ifexp([ast.Return(value=e.orelse)]))
+        else:
+            out.append(st)
+    return out
 
 
 def _try_hoist(stmts):
@@ -1065,8 +1089,66 @@ def _strip_annotations(fn):
 
 
 # ----------------------------------------------------------------------------------------------------- helper inlining
+def _single_exit(stmts, rv):
+    """rewrite a loop-free statement list with several `return`s into one that assigns `rv` instead and falls off the end; None if the
+    shape is not handled.  `if c: return A` + rest  becomes  `if c: rv = A else: <rest>`."""
+    out = []
+    for i, st in enumerate(stmts):
+        rest = stmts[i + 1:]
+        if isinstance(st, ast.Return):
+            out.append(ast.Assign(targets=[ast.Name(id=rv, ctx=ast.Store())], value=st.value if st.value is not None else ast.Constant(None)))
+            return out
+        if isinstance(st, ast.Raise):
+            out.append(st)
+            return out
+        has_ret = any(isinstance(n, ast.Return) for n in ast.walk(st))
+        if not has_ret:
+            out.append(st)
+            continue
+        if isinstance(st, ast.If):
+            if _exits(st.body) and not st.orelse:
+                b, o = _single_exit(st.body, rv), _single_exit(rest, rv)
+                if b is None or o is None:
+                    return None
+                out.append(ast.If(test=st.test, body=b, orelse=o))
+                return out
+            if st.orelse and _exits(st.body) and _exits(st.orelse):
+                b, o = _single_exit(st.body, rv), _single_exit(st.orelse, rv)
+                if b is None or o is None:
+                    return None
+                out.append(ast.If(test=st.test, body=b, orelse=o))
+                return out
+            if st.orelse and _exits(st.body):
+                b, o = _single_exit(st.body, rv), _single_exit(st.orelse + rest, rv)
+                if b is None or o is None:
+                    return None
+                out.append(ast.If(test=st.test, body=b, orelse=o))
+                return out
+            if st.orelse and _exits(st.orelse):
+                b, o = _single_exit(st.body + rest, rv), _single_exit(st.orelse, rv)
+                if b is None or o is None:
+                    return None
+                out.append(ast.If(test=st.test, body=b, orelse=o))
+                return out
+            return None
+        if isinstance(st, ast.Try) and not st.finalbody and not st.orelse and not rest:
+            b = _single_exit(st.body, rv)
+            hs = []
+            for h in st.handlers:
+                hb = _single_exit(h.body, rv)
+                if hb is None:
+                    return None
+                hs.append(ast.ExceptHandler(type=h.type, name=h.name, body=hb))
+            if b is None:
+                return None
+            out.append(ast.Try(body=b, handlers=hs, orelse=[], finalbody=[]))
+            return out
+        return None
+    return out
+
+
 def _inlinable(fn):
-    """simple helper: positional-or-keyword parameters only, straight-line body with at most one return, as the last statement"""
+    """simple helper: positional-or-keyword parameters only; loop-free control flow around the returns (or a single trailing return)"""
     a = fn.args
     if a.vararg or a.kwarg or a.posonlyargs or a.kwonlyargs:
         return False
@@ -1081,9 +1163,18 @@ def _inlinable(fn):
                 return False
     rets = [n for s in body for n in ast.walk(s) if isinstance(n, ast.Return)]
     if len(rets) > 1 or (rets and rets[0] is not body[-1]):
-        # several returns: only the guard form  `if c: return/raise ...` at top level followed by a final return is not handled
-        return False
+        return _single_exit(body, "__r") is not None
     return True
+
+
+def _helper_body(fn):
+    """statements of the helper with exactly one trailing return (or none)"""
+    body = [copy.deepcopy(s) for s in fn.body if not _is_docstring(s)]
+    rets = [n for s in body for n in ast.walk(s) if isinstance(n, ast.Return)]
+    if len(rets) > 1 or (rets and rets[0] is not body[-1]):
+        se = _single_exit(body, "__r")
+        return se + [ast.Return(value=ast.Name(id="__r", ctx=ast.Load()))]
+    return body
 
 
 class _Inliner:
@@ -1146,7 +1237,7 @@ class _Inliner:
             if fn is not None:
                 m = self._bind(fn, recv, call)
                 if m is not None:
-                    body = [copy.deepcopy(s) for s in fn.body if not _is_docstring(s)]
+                    body = _helper_body(fn)
                     self.n += 1
                     pre = []
                     loc = set(_assigned_names(ast.Module(body=body, type_ignores=[])))
@@ -1285,6 +1376,37 @@ def _kind(fn):
 
 
 # ----------------------------------------------------------------------------------------------------- versions of straight-line names
+def _joined(iff):
+    """names that every path through the `if` which falls through assigns exactly once, by a simple statement at the top level of its branch
+    (so after the `if` the name holds `the value assigned in the branch taken`)"""
+    if not iff.orelse:
+        return set()
+    sets = []
+    for branch in (iff.body, iff.orelse):
+        if _exits(branch):
+            continue
+        cnt, nested = {}, set()
+        for st in branch:
+            t = None
+            if isinstance(st, ast.Assign) and len(st.targets) == 1 and isinstance(st.targets[0], ast.Name):
+                t = st.targets[0].id
+            elif isinstance(st, ast.AugAssign) and isinstance(st.target, ast.Name):
+                t = st.target.id
+            if t is not None:
+                cnt[t] = cnt.get(t, 0) + 1
+                continue
+            for n in ast.walk(st):
+                if isinstance(n, ast.Name) and isinstance(n.ctx, (ast.Store, ast.Del)):
+                    nested.add(n.id)
+        sets.append({nm for nm, c in cnt.items() if c == 1 and nm not in nested})
+    if not sets:
+        return set()
+    out = set(sets[0])
+    for x in sets[1:]:
+        out &= x
+    return out
+
+
 def _versions(fn):
     """Simple assignments to a local or a parameter in *version-safe* positions give the name a fresh version:
     `time = f(time); g(time)` becomes `time#1 = f(time); g(time#1)`, `v = a; v &= m` becomes `v#1 = a; v#2 = v#1 & m`.
@@ -1339,8 +1461,10 @@ def _versions(fn):
             serial[("end", id(st))] = counter[0]
     number(fn.body)
 
+    loop_end = [0]
+
     def bad(name, k):
-        last_bad[name] = max(last_bad.get(name, 0), k)
+        last_bad[name] = max(last_bad.get(name, 0), k, loop_end[0])
 
     def scan(stmts, safe_for):
         """safe_for: None = safe for every name; set() = for none; else callable name -> bool"""
@@ -1352,42 +1476,47 @@ def _versions(fn):
                     bad(tg.id, k)
                 for n in ast.walk(st.value):
                     if isinstance(n, ast.NamedExpr) and isinstance(n.target, ast.Name):
-                        bad(n.target.id, 10 ** 9)
+                        bad(n.target.id, k)
                 continue
             if isinstance(st, ast.If):
                 for n in ast.walk(st.test):
                     if isinstance(n, ast.NamedExpr) and isinstance(n.target, ast.Name):
-                        bad(n.target.id, 10 ** 9)
+                        bad(n.target.id, k)
                 end = serial[("end", id(st))]
+                joined = _joined(st)
                 for branch in (st.body, st.orelse):
                     if _exits(branch):
                         scan(branch, safe_for)
                     else:
-                        scan(branch, (lambda nm, sf=safe_for, e=end: sf(nm) and sf is not never and not any(x > e for x in loads.get(nm, ())) and not in_loop[0]))
+                        scan(branch, (lambda nm, sf=safe_for, e=end, j=joined: sf(nm) and sf is not never and not in_loop[0]
+                                      and (nm in j or not any(x > e for x in loads.get(nm, ())))))
                 continue
             if isinstance(st, ast.Try):
+                e = serial[("end", id(st))]
                 for n in ast.walk(st):
                     if isinstance(n, ast.Name) and isinstance(n.ctx, (ast.Store, ast.Del)):
-                        bad(n.id, 10 ** 9)
+                        bad(n.id, e)
                     if isinstance(n, ast.ExceptHandler) and n.name:
-                        bad(n.name, 10 ** 9)
+                        bad(n.name, e)
                 continue
             if isinstance(st, (ast.For, ast.While, ast.With)):
                 hdr = [st.target] if isinstance(st, ast.For) else [i.optional_vars for i in st.items if i.optional_vars is not None] if isinstance(st, ast.With) else []
+                e = serial[("end", id(st))]
                 for h in hdr:
                     for n in ast.walk(h):
                         if isinstance(n, ast.Name):
-                            bad(n.id, 10 ** 9)
-                was = in_loop[0]
+                            bad(n.id, e)
+                was, was_end = in_loop[0], loop_end[0]
                 if not isinstance(st, ast.With):
                     in_loop[0] = True
+                    loop_end[0] = max(loop_end[0], e)
                 scan(st.body, never if not isinstance(st, ast.With) else safe_for)
                 scan(getattr(st, "orelse", []) or [], never if not isinstance(st, ast.With) else safe_for)
-                in_loop[0] = was
+                in_loop[0], loop_end[0] = was, was_end
                 continue
             for n in ast.walk(st):
                 if isinstance(n, ast.Name) and isinstance(n.ctx, (ast.Store, ast.Del)):
-                    bad(n.id, 10 ** 9)
+                    bad(n.id, 10 ** 9 if isinstance(n.ctx, ast.Del) else k)
                 if isinstance(n, (ast.Global, ast.Nonlocal)):
                     for nm in n.names:
                         bad(nm, 10 ** 9)
@@ -1423,14 +1552,24 @@ def _versions(fn):
             if isinstance(st, ast.If):
                 test = _RenameAll(dict(cur)).visit(st.test)
                 end = serial.get(("end", id(st)), 0)
+                joined = {nm for nm in _joined(st) if nm not in captured and safe_for(nm) and safe_for is not never and not looping and k > last_bad.get(nm, 0)}
+                shared = {}
+                for nm in sorted(joined):
+                    count[nm] = count.get(nm, 0) + 1
+                    shared[nm] = f"{nm}#{count[nm]}"
                 brs = []
                 for branch in (st.body, st.orelse):
                     if _exits(branch):
                         brs.append(process(branch, dict(cur), safe_for, looping))
                     else:
-                        sf = (lambda nm, sf=safe_for, e=end, lp=looping: sf(nm) and sf is not never and not lp and not any(x > e for x in loads.get(nm, ())))
-                        brs.append(process(branch, dict(cur), sf, looping))
+                        sf = (lambda nm, sf=safe_for, e=end, lp=looping, j=joined: nm not in j and sf(nm) and sf is not never and not lp and not any(x > e for x in loads.get(nm, ())))
+                        c2 = dict(cur)
+                        new_branch = []
+                        for b in process_join(branch, c2, sf, looping, shared):
+                            new_branch.append(b)
+                        brs.append(new_branch)
                 out.append(ast.If(test=test, body=brs[0], orelse=brs[1]))
+                cur.update(shared)
                 continue
             if isinstance(st, (ast.For, ast.While, ast.With)):
                 st2 = copy.copy(st)
@@ -1450,6 +1589,22 @@ def _versions(fn):
                 out.append(st2)
                 continue
             out.append(_RenameAll(dict(cur)).visit(st))
+        return out
+    def process_join(stmts, cur, safe_for, looping, shared):
+        """like process(), but the (single, top-level) store of each name in `shared` writes the shared version"""
+        out = []
+        for st in stmts:
+            tg = simple_target(st)
+            if tg is not None and tg.id in shared:
+                nm = tg.id
+                if isinstance(st, ast.Assign):
+                    val = _RenameAll(dict(cur)).visit(st.value)
+                else:
+                    val = ast.BinOp(left=ast.Name(id=cur.get(nm, nm), ctx=ast.Load()), op=st.op, right=_RenameAll(dict(cur)).visit(st.value))
+                cur[nm] = shared[nm]
+                out.append(ast.Assign(targets=[ast.Name(id=shared[nm], ctx=ast.Store())], value=val))
+            else:
+                out.extend(process([st], cur, safe_for, looping))
         return out
     fn.body = process(fn.body, {}, always, False)
 
